@@ -16,7 +16,9 @@
 (* closed walk than the limit allows.                                        *)
 (***************************************************************************)
 EXTENDS CycleSpace, GraphGen
-CONSTANTS N, WS, Limits            \* Limits: set of limits, 0 = no limit
+CONSTANTS N, WS, Limits,           \* Limits: set of limits, 0 = no limit
+          LimitFactor              \* 1 = the code; 2 = the named deviation "each frontier only needs to go half-way"
+                                   \* (refuted by MC_BiDijkstra_pinned.cfg: the frontiers alternate by polls, not by distance)
 VARIABLES G, S, v, tv, tpos, hid, lim,   \* the instance: search from <<v,+>> to <<tv,tpos>> avoiding the hidden edges hid
           dist, seen, queue,       \* per frontier (1 = forward, 2 = backward): tentative distances, reached set, queue
           turn, best, done, result
@@ -49,7 +51,7 @@ Finish == /\ ~done /\ Stop
 \* poll ANY minimum entry u of the current frontier, relax all its edges, test for meetings, swap frontiers
 Poll(u) ==
   /\ ~done /\ ~Stop /\ u \in queue[turn] /\ dist[turn][u] = MinQ(turn)
-  /\ IF Limited /\ ~(dist[turn][u] < lim)
+  /\ IF Limited /\ ~(LimitFactor * dist[turn][u] < lim)
        THEN done' = TRUE /\ result' = -1 /\ UNCHANGED <<dist, seen, queue, turn, best>>
        ELSE LET f == turn
                 o == 3 - turn
